@@ -5,6 +5,7 @@ import (
 
 	"github.com/jsightapi/jsight-schema-go-library/errors"
 	"github.com/jsightapi/jsight-schema-go-library/notations/jschema/internal/schema"
+	"github.com/jsightapi/jsight-schema-go-library/notations/jschema/internal/schema/constraint"
 )
 
 // CheckRecursion checks that given schema doesn't have invalid recursions.
@@ -122,7 +123,14 @@ func (c *recursionChecker) check(node schema.Node, types map[string]schema.Type)
 
 	// We should check all fields in the object 'cause some of them can be required.
 	case *schema.ObjectNode:
-		for _, n := range node.Children() {
+		required := requiredKeys(node)
+		for i, n := range node.Children() {
+			// A property the object doesn't require is optional, whether it is
+			// said by the "optional" rule or by the schema's option to treat
+			// keys as optional by default.
+			if _, ok := required[node.Key(i).Key]; !ok {
+				continue
+			}
 			if err := c.check(n, types); err != nil {
 				return err
 			}
@@ -133,6 +141,18 @@ func (c *recursionChecker) check(node schema.Node, types map[string]schema.Type)
 	}
 
 	return nil
+}
+
+// requiredKeys returns the keys a document of the object must have. This is what
+// the validator requires.
+func requiredKeys(node *schema.ObjectNode) map[string]struct{} {
+	keys := map[string]struct{}{}
+	if c, ok := node.Constraint(constraint.RequiredKeysConstraintType).(*constraint.RequiredKeys); ok {
+		for _, k := range c.Keys() {
+			keys[k] = struct{}{}
+		}
+	}
+	return keys
 }
 
 func (c *recursionChecker) checkMixedValueNode(
